@@ -407,12 +407,15 @@ func (in *inst) observe() observation {
 			ob.Bad = append(ob.Bad, [2]string{"sigCache-holds-invalid-signature", fmt.Sprintf("signature cache holds (hash of %s, a signature that does not recover to the node over it)", w.nameOfHash(ch, 0))})
 		}
 	}
-	sb.WriteString(" | evil=")
+	var ev []string
 	for i := 0; i < nDeputies; i++ {
 		if in.dm.IsEvilDeputyNode(node.Deputy(i).Addr, 0) {
-			fmt.Fprintf(&sb, "d%d ", i)
+			ev = append(ev, fmt.Sprintf("d%d", i))
 		}
 	}
+	// every field ends with " | " (diffKey splits there): an empty black list used to swallow the pool field,
+	// so that a difference in the pool alone was named "evil" in the fingerprint
+	fmt.Fprintf(&sb, " | evil=%s ", strings.Join(ev, ","))
 	var pl []string
 	for _, tx := range in.pool.GetTxs(node.GenesisTime+clockOff, 100) {
 		h := tx.Hash()
